@@ -197,7 +197,7 @@ Proof.
     { intros skip' buf' err' line' Hs' H'. destruct (IH _ _ _ _ _ _ _ _ Hs' H') as [[m Hm] [Ht Hp]].
       split; [|split]; [exists (c :: m); apply consumes_cons; exact Hm|exact Ht|exact Hp]. }
     destruct skip as [|k].
-    2:{ apply (Hrec k buf err line); [cbn in Hs; lia|exact H]. }
+    2:{ apply (Hrec k buf err (if chr_is c "010" then (line + 1)%N else line)); [cbn in Hs; lia|exact H]. }
     assert (Hleaf : forall tok rest' pos' line' parens',
               (tok, mkS rest' pos' line' parens') = (t, st') ->
               forall n, lexeme_token (tk tok) = false ->
